@@ -121,9 +121,32 @@ async def _scenario(seed: int) -> dict[str, Any]:
                 return "error"
 
         ev("call", kind=op)
-        task = loop.create_task(operation())
-        abandoned = False
+        # one scenario in five: the abandonment is a timer armed before the operation starts, due at a stagger tick plus k loop
+        # iterations (the instant at which the race's own scope has just expired); attempts stay pending until then
+        at_tick = abandon != "none" and rng.random() < 0.2
+        tick_info = {"scope_asked_first": False}
         closer: asyncio.Task[Any] | None = None
+        abandoned = False
+        if at_tick:
+
+            def fire(j: int) -> None:
+                nonlocal closer, abandoned
+                if j:
+                    loop.call_soon(fire, j - 1)
+                    return
+                abandoned = True
+                if task.done():
+                    return
+                if abandon == "aclose":
+                    ev("aclose")
+                    closer = loop.create_task(client.aclose())
+                else:
+                    tick_info["scope_asked_first"] = task.cancelling() > 0
+                    ev("cancel")
+                    task.cancel()
+
+            loop.call_at(loop.time() + 0.25 * rng.choice([1, 2]), fire, rng.choice([0, 1, 1, 2, 3]))
+        task = loop.create_task(operation())
         steps = 0
         abandon_at = rng.randint(0, 4)
         while not task.done() and steps < 60:
@@ -131,6 +154,16 @@ async def _scenario(seed: int) -> dict[str, Any]:
             await harness.settle()
             if task.done():
                 break
+            if at_tick:
+                if abandoned:
+                    # abandoned at the tick: whatever was pending must be given up without any help from the environment
+                    for _ in range(100):
+                        await asyncio.sleep(0)
+                    if closer is not None:
+                        ev("aclose_ret", kind="prompt" if closer.done() and closer.exception() is None else ("late" if not closer.done() else "error:" + type(closer.exception()).__name__))
+                    break
+                await asyncio.sleep(0.26)
+                continue
             if not abandoned and abandon != "none" and steps > abandon_at:
                 abandoned = True
                 # somewhere inside the race (possibly right after an attempt finished)
@@ -190,7 +223,7 @@ async def _scenario(seed: int) -> dict[str, Any]:
         problems.append(f"/proc/self/fd: {fds_before} descriptors before, {_nfds()} after")
     if problems:
         events.append(dict(EVD, ev="problem"))
-    return {"n": n, "events": traces.uniform(events, EVD), "problems": problems, "meta": f"client seed={seed} addresses={['v4' if f == socket.AF_INET else 'v6' for f in fams]} operation={op} abandon={abandon}@{abandon_at} problems={problems}"}
+    return {"n": n, "events": traces.uniform(events, EVD), "problems": problems, "abandon": abandon, "at_tick": at_tick, "scope_asked_first": tick_info["scope_asked_first"], "meta": f"client seed={seed} addresses={['v4' if f == socket.AF_INET else 'v6' for f in fams]} operation={op} abandon={abandon}@{'a stagger tick' if at_tick else abandon_at} problems={problems}"}
 
 
 def _run_one(seed: int) -> dict[str, Any]:
@@ -221,7 +254,15 @@ def run(chk: Check) -> None:
         t = rec[idx]
         failing = t["events"][pos - 1] if 0 < pos <= len(t["events"]) else None
         chk.violation(
-            {"kind": "trace", "spec": "ClientConnect", "event": (failing or {}).get("ev", "?"), "what": (failing or {}).get("kind", "")},
+            {
+                "kind": "trace",
+                "spec": "ClientConnect",
+                "event": (failing or {}).get("ev", "?"),
+                "what": (failing or {}).get("kind", ""),
+                "abandon": t.get("abandon", ""),
+                "at_stagger_tick": bool(t.get("at_tick")),
+                "scope_asked_first": bool(t.get("scope_asked_first")),
+            },
             f"client connection race: not allowed by ClientConnect (event #{pos}: {failing}) -- {t['meta']} events={[(e['ev'], e['i'], e['nopen'], e['kind']) for e in t['events']]}",
             {"kind": "client_connect", "meta": t["meta"], "events": t["events"]},
         )
